@@ -173,7 +173,7 @@ func c06RenderCData(r *h.RNG, s string) string {
 // ---------- runs of tokens that the look-ahead skips ----------
 
 var c06CommentBodies = []string{"", " c ", "x", " <a> & ]]> ", "\n", ">", "]]", "]", " - ", "<![CDATA[", "?>", "\r\n"}
-var c06PIValues = []string{"\"x\"", "'y'", "\"a b\"", "\"&quot;\"", "\"\"", "\"'\"", "\"]]>\"", "\">\"", "'\"'", "\" a \"", "\"&#60;&amp;\"", "\"é\""}
+var c06PIValues = []string{"\"x\"", "'y'", "\"a b\"", "\"&quot;\"", "\"\"", "\"'\"", "\"]]>\"", "\">\"", "'\"'", "\" a \"", "\"&#60;&amp;\"", "\"é\"", "\"?&gt;\"", "'?&#62;'", "\"&#63;&#x3e;\"", "\"&apos;&quot;&quot;\""}
 
 // c06SkipDist: number of skipped tokens of a run, 0–40 (3 % 41–100, 1 % 101–300), all sizes around the initial
 // capacity of the token buffer (8) and its growth steps
@@ -210,7 +210,8 @@ func (b *c06Builder) skipRun(n, style int) {
 			var sb strings.Builder
 			sb.WriteString("<?" + r.Pick([]string{"pi", "xml-stylesheet", "p.i", "t", "php"}))
 			if k == 0 && r.Chance(6) { // free-form data (words become value-less attribute tokens)
-				sb.WriteString(r.Pick([]string{" echo \"x\"; ", " some text", " a", " a=\"1\"  free text"}))
+				// (a `>` or `/>` in the data is read by the lexer like the end of a tag: known finding K-C06-8, clause pi only)
+				sb.WriteString(r.Pick([]string{" echo \"x\"; ", " some text", " a", " a=\"1\"  free text", " a=\"?&gt;\" ?&gt;", " a>b", " >", " ? >", " a />b ", " x=\"1\" > y  z "}))
 				n -= 2
 			}
 			for i := 0; i < k; i++ {
